@@ -46,23 +46,30 @@ def run(ctx, model_ok):
                         "unmatchedEdges of the model triangulation, exact; group rows: group_traces on 1-7 random trace dicts (mesh3d / scatter3d / other type, random subsets of "
                         "the key properties from pools with colliding concatenations, nested and flat line / marker dicts, copies of earlier traces) against Display.groupTraces: "
                         "which inputs end in which output trace, in order, exact")
-    ctx.cov["not_shown"] = ["make_Sensor and the arrow traces of currents (draw_arrow_on_circle / draw_arrow_from_vertices) have no Lean model (display oracle only: pixel cubes "
-                            "centred on the sensor-frame pixel positions placed by the pose, axes glyph starting at the sensor position, Dipole arrow through the position along the moment); "
+    ctx.cov["rule"] += ("; arrowc / arrowl / pixels rows (Model/DisplayArrow.lean at Float, relative 1e-12 of the drawn size, observed <= 5e-16): draw_arrow_on_circle "
+                        "directly (signs incl. 0, angles incl. 0 / 90 / 180 / random) and through make_Circle (current +/- / 0 / None, style.arrow.offset, sizemode), "
+                        "draw_arrowed_line along +y (the template), the pixel-cube rows of make_Sensor (1-8 pixels, repeated pixels, one pixel at the origin, "
+                        "scaled / absolute, pixel size 0)")
+    ctx.cov["not_shown"] = ["current arrows: circle_arrow_on_circle / circle_arrow_direction are about draw_arrow_on_circle in the loop's own frame (the z-rotation written with cos / sin; "
+                            "scipy's from_euler agrees to 1e-12 in the arrowc rows); polyline_arrow_on_segment is about the arrow TEMPLATE of draw_arrowed_line in the segment's own frame - "
+                            "the rotation onto vec (scipy from_rotvec, incl. the anti-parallel branch) and draw_arrow_from_vertices' loop over the segments / sizes are not modelled; "
+                            "make_Sensor: sensor_pixel_cubes / sensor_pixel_size_rule cover the pixel cubes and their size (np.unique's sorting is done by the harness, dim_ext is an input); the axes glyph "
+                            "(get_sensor_mesh template, cube_mask collapse, dim_ext scaling, handedness) and the pixel hull box are not modelled (display oracle: glyph starts at the sensor "
+                            "position, axes directions, left-handed x flip); that positive current = counter-clockwise is the Circle kernel's convention, not derived here; "
                             "subdivide_mesh_by_facecolor, plotly/matplotlib/pyvista glue: display oracle only (plotly backend; matplotlib only in the no-alteration sweep, pyvista not exercised). "
                             "group_traces / merge_traces: modelled on linearised traces (type, str(value) of the present keys, facecolor-is-None) - group_traces_partition, "
-                            "group_traces_merges_within_group; linearize_dict itself (nesting depth > 1) and the arrays inside the merged traces (merge_mesh3d / merge_scatter3d theorems "
-                            "are about Display.mergeMesh3d / mergeScatter3d, composed by hand, not in one model function) are not; the key string is built without separators: "
-                            "group_key_collision_witness (row 1 col 12 / row 11 col 2) - on the real code show() of one object in these two subplots raises KeyError. Modelled and tied since the ninth batch "
+                            "group_traces_merges_within_group, group_key_injective, traces_of_different_subplots_never_merge (tuple key since repo fix 4b91a64; concat_key_collision_witness keeps the "
+                            "old concatenated key as a literal); linearize_dict itself (nesting depth > 1) and the arrays inside the merged traces (merge_mesh3d / merge_scatter3d theorems "
+                            "are about Display.mergeMesh3d / mergeScatter3d, composed by hand, not in one model function) are not. Modelled and tied since the ninth batch "
                             "(Model/DisplayIdx.lean, rows ellidx / segidx / arrow / arrowv / mmesh / mscat / path / autounit / ranges): index arrays of make_Ellipsoid (closed for every "
                             "N >= 4: ellipsoid_mesh_closed) and make_CylinderSegment (closed for every arc count whenever phi2 - phi1 != 360: cylinder_segment_mesh_closed; exactly 360: "
                             "no caps and the seam columns are different rows holding the same points, 8 index-level open edges, cylinder_segment_full_turn_seam_open), make_Arrow, "
                             "merge_mesh3d / merge_scatter3d, make_path + rescale_traces, unit_prefix / get_unit_factor as used by units_length='auto', get_scene_ranges for one subplot",
-                            "CylinderSegment winding: for EVERY arc count N >= 2 the two triangles of the START cap are wound opposite to the rest of the surface "
-                            "(cylinder_segment_winding_partial: the four directed edges a0>b0>d0>c0>a0 are used twice, their reverses never, every other directed edge and its reverse "
-                            "exactly once; turning over exactly these two triangles gives a closed consistently wound surface) - the FULL statement 'consistently wound' is false of "
-                            "this tree. Cuboid and Tetrahedron are consistently wound (decide). Consistent winding of make_Ellipsoid / make_Prism / make_Pyramid / make_Arrow for every N "
-                            "is NOT a theorem: the wind rows find no defect for Ellipsoid N = 4..24, Prism / Pyramid N = 3..60, Arrow N = 3..40 (Pyramid and the Arrow's cone have an "
-                            "open base ring, consistently directed)",
+                            "winding: every closed-surface generator is consistently wound for EVERY size - cylinder_segment_consistently_wound (N >= 2, caps drawn; since repo fix 64dd71f; "
+                            "old_start_cap_was_inverted keeps the pre-fix pattern as a literal witness: four directed edges twice for every N), prism_consistently_wound (N >= 3), "
+                            "ellipsoid_consistently_wound (N >= 4), pyramid / arrow (open base ring; no directed edge twice), cuboid_tetra_consistently_wound; NOT shown: that the winding is OUTWARD "
+                            "for Prism / Ellipsoid / CylinderSegment (only Cuboid and Tetrahedron have the normal-direction theorems; the oracle compares the signed volume for Tetrahedron / TriangularMesh), "
+                            "and the exact-360 ring (no caps: index-open along the seam)",
                             "merge_mesh3d model: x/y/z/i/j/k mandatory (the real function skips i/j/k missing from the FIRST trace), intensity / facecolor as optional arrays, other "
                             "entries as opaque tags; a later trace whose facecolor / intensity is None while the first has an array (numpy would hstack the None) is not in the model; "
                             "merge_scatter3d: the theorem needs the two string facts 'mode non-empty' and '\"line\" in mode' as hypotheses (string literals do not reduce in the "
